@@ -54,8 +54,8 @@ CLAIMED['C12'] = dict(
    design='5 C12')
 CLAIMED['C10'] = dict(
    category='proof',
-   text="FRAGMENT, proved: exponential_backoff::generate returns 2^min(k,4)*1000 ms +-500 ms for its k-th call, hence always within [0.5 s, 16.5 s], and saturates its exponent at 4; the handshake framing of connect_op (C19 unit). NOT decided / not built: CONNECT contents from the context, CONNACK admission paths, host cycling, stream swap, that CONNECT is the first packet on the wire.",
-   note="boost::random::uniform_smallint<>{-500,500} assumed to return a value in [-500,500].",
+   text="FRAGMENT, proved on EVERY continuation of connect_op (emitted from connect_op<tcp::socket, noop_logger>; environment recorded by ghost counters): after the TCP connect the first and only packet written before a reply is one CONNECT built by encode_connect from exactly the context's client id, username, password, keep-alive, CONNECT properties and Will with Clean Start = false; with a configured authenticator nothing is written before its initial data is known and the CONNECT carries it; a cancelled operation completes with operation_aborted and writes nothing; a failed transport step is reported; after the CONNECT exactly the 5-byte fixed header is awaited in a buffer of at least 5 bytes; the handshake completes with success ONLY from a decodable CONNACK whose reason code is listed for CONNACK and equals 0 (or, with an authenticator, after its accepted final step); an undecodable CONNACK or a reason code not allowed in CONNACK -> malformed_packet, a refusal (>= 0x80) -> try_again, a failed read/write -> that error: in each case the stream is shut down and the operation completes with that non-success code (never success); AUTH packets are admitted only with a configured method, a listed AUTH reason code and the same method, and answered by one AUTH 0x18. exponential_backoff::generate returns 2^min(k,4)*1000 ms +-500 ms for its k-th call, hence always within [0.5 s, 16.5 s]; handshake framing (C19 unit). NOT built: reconnect_op (5 s handshake timer, host rotation, backoff only at wrap-around, stream swap after success), endpoints; NOT decided: 'no other packet before CONNACK' across the client (queued traffic gating is reconnect_op/async_sender ordering over schedules).",
+   note="boost::random::uniform_smallint<>{-500,500} assumed to return a value in [-500,500]. control_packet::of(..., encode_connect, args) encodes the arguments it is given (encoder composition not verified, C17). cancellation_type values are symbolic distinct constants.",
    design='5 C10')
 CLAIMED['C03'] = dict(
    category='proof',
@@ -64,7 +64,7 @@ CLAIMED['C03'] = dict(
    design='5 C03')
 CLAIMED['C13'] = dict(
    category='proof',
-   text="FRAGMENT, proved: session_state setters/getters are bit-exact on the two flags (session_present = bit 0, subscriptions_present = bit 1, each setter changes only its bit). client_service::update_session_state (the only place the CONNACK outcome is applied, emitted from the mqtt_client<tcp::socket> instantiation): session_expired is stored to the receive channel exactly when the new session is fresh AND subscriptions existed, exactly once, with exactly that code; afterwards session_present is set and subscriptions_present cleared; a resumed session changes nothing; pending PUBREL waits are dropped iff the session was not resumed; the ping timer is restarted. Lemma over the CONTRACTS (bodies replaced): two consecutive fresh reconnects report the loss once, not twice. NOT decided: that update runs before the first message of the new session is stored (ordering across continuations of connect_op / reconnect_op), how session_present is derived from the CONNACK flags byte.",
+   text="FRAGMENT, proved: session_state setters/getters are bit-exact on the two flags (session_present = bit 0, subscriptions_present = bit 1, each setter changes only its bit). client_service::update_session_state (the only place the CONNACK outcome is applied, emitted from the mqtt_client<tcp::socket> instantiation): session_expired is stored to the receive channel exactly when the new session is fresh AND subscriptions existed, exactly once, with exactly that code; afterwards session_present is set and subscriptions_present cleared; a resumed session changes nothing; pending PUBREL waits are dropped iff the session was not resumed; the ping timer is restarted; connect_op::on_connack records the CONNACK's Session Present flag in bit 0 of the session state (only that bit changes) before the reason code is examined. Lemma over the CONTRACTS (bodies replaced): two consecutive fresh reconnects report the loss once, not twice. NOT decided: that update runs before the first message of the new session is stored (ordering across continuations of connect_op / reconnect_op), how session_present is derived from the CONNACK flags byte.",
    note="Trusted base of DESIGN 7. Opaque environment recorded by ghost counters (channel store, replies, timer).",
    design='5 C13')
 
